@@ -126,6 +126,8 @@ package rueidis
 //@ func streamTo
 //@   safety C13
 //@   modifies *
+//@   ensures [C29 a-reply-that-was-not-consumed-completely-comes-with-an-error] !clean ==> err != nil
+//@   loop 1: invariant [C29] !clean ==> err != nil
 
 // ---------------------------------------------------------------------------------------------
 // C15 — typed reply accessors never panic (message.go).
@@ -705,3 +707,37 @@ package rueidis
 // connections to sentinels use the sentinel's own credentials, client name, dialer and TLS settings, database 0
 //@ func newSentinelOpt
 //@   ensures [C47 sentinel-connections-use-the-sentinel-settings] result != nil && result.Username == opt.Sentinel.Username && result.Password == opt.Sentinel.Password && result.ClientName == opt.Sentinel.ClientName && result.SelectDB == 0
+
+// ---------------------------------------------------------------------------------------------
+// C29 / C24 — a result stream hands its connection back exactly once (pipe.go RedisResultStream.WriteTo, pool.go).
+// s.n is the number of replies still to be read. One WriteTo reads one reply. When the last reply has been read, or a
+// reply could not be consumed completely (the stream ends there: the connection is closed first), the connection goes
+// back to the pool — once; a finished or failed stream touches neither the connection nor the pool again.
+//@ immutable [C29] RedisResultStream n e p w writers=RedisResultStream.WriteTo
+//@ func pool.Store
+//@   modifies *
+//@   assert [C24 a-healthy-connection-becomes-idle-and-stays-accounted] at startTimerIfNeeded: !p.down && returned(Error) == nil && len(p.list) == old(len(p.list)) + 1 && p.list[len(p.list) - 1] == v && p.size == old(p.size)
+//@   assert [C24 a-broken-or-late-connection-is-closed-and-forgotten] at Close: arg0 == v && (p.down || returned(Error) != nil) && p.size == old(p.size) - 1 && len(p.list) == old(len(p.list))
+//@ func pipe.Close
+//@   modifies *
+//@ func RedisResultStream.WriteTo
+//@   modifies *
+//@   let CLEAN = third(returned(streamTo))
+//@   assert [C29 one-reply-per-call-from-the-streams-own-connection] at streamTo: arg0 == s.w.r && arg1 == w && s.e == nil && s.n > 0
+//@   assert [C29 the-connection-goes-back-only-when-nothing-is-left-to-read] at Store: s.n == 0 && arg0 == s.p && arg1 == asiface(s.w) && calls(Store) == 0
+//@   assert [C29 a-connection-is-closed-only-after-a-reply-that-could-not-be-consumed] at Close: !CLEAN && s.n == 0 && calls(Store) == 0
+//@   ensures [C29 a-finished-stream-is-left-alone where-defined] (old(s.e) != nil || old(s.n) <= 0) ==> (calls(Store) == 0 && calls(streamTo) == 0 && err == old(s.e) && s.n == old(s.n))
+//@   ensures [C29 a-consumed-reply-counts-down-and-the-last-one-returns-the-connection where-defined] (old(s.e) == nil && old(s.n) > 0 && CLEAN) ==> (s.n == old(s.n) - 1 && calls(Close) == 0 && calls(Store) == ite(s.n == 0, 1, 0))
+//@   ensures [C29 an-unconsumable-reply-ends-the-stream-closes-and-returns-the-connection where-defined] (old(s.e) == nil && old(s.n) > 0 && !CLEAN) ==> (s.n == 0 && calls(Close) == 1 && calls(Store) == 1)
+
+// C24 — idle cleanup and Store keep the pool's account: size counts the connections in use plus the idle ones in list.
+//@ func wire.Close
+//@ func wire.ResetTimer
+//@ func wire.StopTimer
+//@ func pool.removeIdleConns
+//@   requires 0 <= p.minSize && len(p.list) <= p.size
+//@   modifies *
+//@   safety C24 index,slice
+//@   ensures [C24 cleanup-forgets-exactly-the-idle-connections-it-closes] p.size == old(p.size) - (old(len(p.list)) - len(p.list)) && len(p.list) == min(old(p.minSize), old(len(p.list)))
+//@   ensures [C24 connections-in-use-stay-accounted] p.size - len(p.list) == old(p.size) - old(len(p.list))
+//@   loop 0: invariant [C24] rangeindex >= -1 && rangeindex + 1 <= old(len(p.list)) - newLen && p.size == old(p.size) - (rangeindex + 1) && len(p.list) == old(len(p.list)) && p.minSize == old(p.minSize) && newLen == min(old(p.minSize), old(len(p.list)))
